@@ -525,7 +525,7 @@ def _check_prod_case(ctx, name, be, ref, c, o):
     # nonce
     cnt += 1
     if _hx(o["k"]) != k:
-        fail("C01|rfc6979|%s|%s|nonce" % (lab, cls), "deterministic_generate_k differs from the RFC 6979 term value %#x: %s" % (k, o["k"]))
+        fail("C01|rfc6979|production|z=%s|nonce" % c["zn"], "deterministic_generate_k differs from the RFC 6979 term value %#x: %s" % (k, o["k"]))
     if o["oracle"] != c["oracle"][:len(o["oracle"])] or len(o["oracle"]) < 4 + 1 + 3 * c["idx"]:
         fail("C01|rfc6979|%s|hmac_calls" % lab, "pycoin's HMAC invocations are not the ones RFC6979.tla prescribes")
     # signature
@@ -538,12 +538,12 @@ def _check_prod_case(ctx, name, be, ref, c, o):
         cnt += 1
         got = o[fld] if isinstance(o[fld], str) else tuple(_hx(v) for v in o[fld])
         if got != want and not (be != "python" and got == flipped):
-            fail("C01|sign|%s|%s|%s" % (lab, cls, "got=" + got if isinstance(got, str) else "r_s"),
+            fail("C01|sign|%s|%s" % (lab, "got=" + got if isinstance(got, str) else "r_s"),
                  "%s is not the RFC 6979 signature (r=%#x, s=%#x): %s" % (fld, want[0], want[1], o[fld]))
     cnt += 1
     got = o["sig_recid"] if isinstance(o["sig_recid"], str) else tuple(_hx(v) for v in o["sig_recid"])
     if got != want + (sg["recid"],) and not (be != "python" and got == flipped + (sg["recid"] ^ 1,)):
-        fail("C01|sign_with_recid|%s|%s|%s" % (lab, cls, "got=" + got if isinstance(got, str) else "r_s_recid"),
+        fail("C01|sign_with_recid|%s|%s" % (lab, "got=" + got if isinstance(got, str) else "r_s_recid"),
              "sign_with_recid is not (r, s, recid) of the RFC 6979 nonce: %s vs %s" % (o["sig_recid"], want + (sg["recid"],)))
     if [_hx(v) for v in o["k_used"]] != [k]:
         fail("C01|sign|%s|nonce_passed_to_gen_k" % lab, "sign(.., gen_k) called gen_k with other arguments: nonce %s" % o["k_used"])
